@@ -62,9 +62,9 @@ theorem request_obs_consistent (g0 : Gen R O M) (sched : List (Step R O M)) (r :
 /-- Corollary for the HTTP server: the response a request produces from its three reads
 (rules → route, mapper → handler, options → X-Forwarded-For) is `serve g` for **one** generation
 `g`, the one current at its load — never a mixture of two specs. -/
-theorem response_is_serve_of_one_generation (g0 : HGen) (s1 s2 : List (Step Mux.Cfg Options Mapper))
+theorem response_is_serve_of_one_generation (g0 : HGen) (s1 s2 : List (Step Rules Options Mapper))
     (r : Nat) (hfresh : ((run (init g0) s1).reqs r).loaded = none)
-    (vr : Mux.Cfg) (vm : Mapper) (vo : Options)
+    (vr : Rules) (vm : Mapper) (vo : Options)
     (hr : (Field.rules, Val.rules vr) ∈ ((run (init g0) (s1 ++ Step.load r :: s2)).reqs r).obs)
     (hm : (Field.mapper, Val.mapper vm) ∈ ((run (init g0) (s1 ++ Step.load r :: s2)).reqs r).obs)
     (ho : (Field.options, Val.options vo) ∈ ((run (init g0) (s1 ++ Step.load r :: s2)).reqs r).obs)
@@ -82,9 +82,9 @@ theorem response_is_serve_of_one_generation (g0 : HGen) (s1 s2 : List (Step Mux.
 every reload in the schedule builds `a` or `b`, then the response of **every** request that has
 performed its three reads is `serve a` or `serve b` — the executable specification the judge
 evaluates on the real responses. -/
-theorem storm_response_in_two (a b : HGen) (sched : List (Step Mux.Cfg Options Mapper))
+theorem storm_response_in_two (a b : HGen) (sched : List (Step Rules Options Mapper))
     (hb : BuildsIn (fun g => g = a ∨ g = b) sched) (r : Nat)
-    (vr : Mux.Cfg) (vm : Mapper) (vo : Options)
+    (vr : Rules) (vm : Mapper) (vo : Options)
     (hr : (Field.rules, Val.rules vr) ∈ ((run (init a) sched).reqs r).obs)
     (hm : (Field.mapper, Val.mapper vm) ∈ ((run (init a) sched).reqs r).obs)
     (ho : (Field.options, Val.options vo) ∈ ((run (init a) sched).reqs r).obs)
@@ -121,6 +121,23 @@ theorem after_store_new (g0 : Gen R O M) (s1 s2 : List (Step R O M)) (u r : Nat)
   obtain ⟨pre, hp, hm⟩ := fresh_load_run _ s2 r g' hfresh hl
   rw [step_store_some _ u g hb] at hp hm ⊢
   exact ⟨pre, hp, hm⟩
+
+/-- **Sequential histories** (the `muxhist` harness): reloads and requests that each run to
+completion, in any order and number. The `j`-th request reads exactly the three fields of the
+generation installed by the last reload completed before it (the initial one if there was
+none) — in particular a cache, a filter chain or any other state of an earlier generation can
+play no role. Its response therefore is `serve` of that generation (`histServe`). -/
+theorem sequential_history_sees_latest (g0 : Gen R O M) (ops : List (HOp R O M)) (j : Nat) (g : Gen R O M)
+    (h : (expectedGens g0 ops)[j]? = some g) :
+    ((seqRun (init g0) 0 ops).reqs j).obs = triple g := by
+  have := (seqRun_spec ops (init g0) 0 (by intro r _; exact ⟨rfl, rfl⟩)).2 j g h
+  simpa using this
+
+/-- … and the outcome assembled from those reads is `serve g`. -/
+theorem sequential_history_response (g : HGen) (q : HReq) :
+    (match triple g with
+     | [(_, Val.rules vr), (_, Val.mapper vm), (_, Val.options vo)] => serveFrom vr vm vo q
+     | _ => serve g q) = serve g q := rfl
 
 /-! ### Non-vacuity and contrast -/
 
@@ -300,6 +317,15 @@ theorem mux_atomicity_facts :
     FactsC11.extractionFailed = false ∧ FactsC11.muxLoadsPerRequest = 1 ∧
       FactsC11.muxPostPublishWrites = [] ∧ FactsC11.getHandlerCallsPerRequest = 1 ∧
       FactsC11.reloadStoresLast = true := by decide
+
+open EgVerif.Gen in
+/-- `mux.reload` builds the new instance from the new spec only: it loads the old instance once,
+uses nothing of it except the tracer (`oldInst.tracer`, `oldInst.spec.Tracing`), and the route
+cache of the new instance is always a fresh `lru.NewARC` — no cached route of an earlier
+generation can survive an update (the modelling assumption behind `build` taking only `g`). -/
+theorem reload_builds_fresh_instance :
+    FactsC11.reloadOldInstUses = [] ∧ FactsC11.reloadCacheFresh = true ∧
+      FactsC11.reloadInstLoads = 1 := by decide
 
 open EgVerif.Gen in
 /-- Every filter kind whose `Inherit` mentions the previous generation is modelled explicitly
